@@ -1,1 +1,636 @@
-fn main(){}
+//! vclock (engine E-A): the real log pipeline of monorail (process_reader -> CompressorClient ->
+//! Compressor) driven in-process under tokio's paused clock. With the clock paused tokio is a
+//! discrete-event simulator: when no task is runnable it jumps to the next timer, so the 500 ms
+//! flush tick costs microseconds and lands exactly where the script puts it. `rng_seed` makes the
+//! branch order of `select!` a function of the seed. Children are scripted in-memory readers.
+use serde_json::{json, Value};
+use std::collections::{BTreeMap, HashSet, VecDeque};
+use std::path::PathBuf;
+use std::pin::Pin;
+use std::task::{Context, Poll};
+use std::time::Duration;
+use tokio::io::{AsyncRead, ReadBuf};
+
+// ---- PRNG (same generator as vsim)
+fn splitmix(x: &mut u64) -> u64 {
+    *x = x.wrapping_add(0x9E3779B97F4A7C15);
+    let mut z = *x;
+    z = (z ^ (z >> 30)).wrapping_mul(0xBF58476D1CE4E5B9);
+    z = (z ^ (z >> 27)).wrapping_mul(0x94D049BB133111EB);
+    z ^ (z >> 31)
+}
+struct Rng {
+    s: [u64; 4],
+}
+impl Rng {
+    fn new(seed: u64) -> Self {
+        let mut x = seed;
+        Rng { s: [splitmix(&mut x), splitmix(&mut x), splitmix(&mut x), splitmix(&mut x)] }
+    }
+    fn next(&mut self) -> u64 {
+        let r = self.s[1].wrapping_mul(5).rotate_left(7).wrapping_mul(9);
+        let t = self.s[1] << 17;
+        self.s[2] ^= self.s[0];
+        self.s[3] ^= self.s[1];
+        self.s[1] ^= self.s[2];
+        self.s[0] ^= self.s[3];
+        self.s[2] ^= t;
+        self.s[3] = self.s[3].rotate_left(45);
+        r
+    }
+    fn below(&mut self, n: usize) -> usize {
+        if n <= 1 {
+            0
+        } else {
+            (self.next() % n as u64) as usize
+        }
+    }
+    fn chance(&mut self, a: u32, b: u32) -> bool {
+        self.next() % (b as u64) < a as u64
+    }
+}
+fn mix(parts: &[u64]) -> u64 {
+    let mut h: u64 = 0x243F6A8885A308D3;
+    for p in parts {
+        let mut x = h ^ p.wrapping_mul(0x9E3779B97F4A7C15);
+        h = splitmix(&mut x);
+    }
+    h
+}
+fn fnv(b: &[u8]) -> u64 {
+    let mut h: u64 = 0xcbf29ce484222325;
+    for x in b {
+        h ^= *x as u64;
+        h = h.wrapping_mul(0x100000001b3);
+    }
+    h
+}
+
+// ---- script
+#[derive(Clone, Debug)]
+struct Chunk {
+    at_ms: u64,
+    bytes: Vec<u8>,
+    class: &'static str,
+}
+#[derive(Clone, Debug, Default)]
+struct Stream {
+    chunks: Vec<Chunk>,
+    eof_ms: u64,
+}
+#[derive(Clone, Debug, Default)]
+struct Script {
+    tasks: Vec<[Stream; 2]>,
+    tokio_seed: u64,
+    cancel_ms: Option<u64>,
+}
+
+fn hexs(b: &[u8]) -> String {
+    let mut s = String::with_capacity(b.len() * 2);
+    for x in b {
+        s.push_str(&format!("{:02x}", x));
+    }
+    s
+}
+fn unhex(s: &str) -> Vec<u8> {
+    let v = |c: u8| -> u8 {
+        match c {
+            b'0'..=b'9' => c - b'0',
+            b'a'..=b'f' => c - b'a' + 10,
+            _ => 0,
+        }
+    };
+    s.as_bytes().chunks(2).map(|p| (v(p[0]) << 4) | v(*p.get(1).unwrap_or(&b'0'))).collect()
+}
+
+impl Script {
+    fn to_json(&self) -> Value {
+        json!({
+            "tokio_seed": self.tokio_seed,
+            "cancel_ms": self.cancel_ms,
+            "tasks": self.tasks.iter().map(|t| {
+                t.iter().map(|s| json!({"eof_ms": s.eof_ms, "chunks": s.chunks.iter().map(|c| {
+                    // long chunks are stored run-length style to keep replay files small
+                    json!({"at_ms": c.at_ms, "hex": hexs(&c.bytes), "class": c.class})
+                }).collect::<Vec<_>>()})).collect::<Vec<_>>()
+            }).collect::<Vec<_>>()
+        })
+    }
+    fn from_json(v: &Value) -> Option<Script> {
+        let mut tasks = vec![];
+        for t in v["tasks"].as_array()? {
+            let a = t.as_array()?;
+            let mut pair: [Stream; 2] = Default::default();
+            for (i, s) in a.iter().enumerate().take(2) {
+                let mut st = Stream { chunks: vec![], eof_ms: s["eof_ms"].as_u64()? };
+                for c in s["chunks"].as_array()? {
+                    st.chunks.push(Chunk { at_ms: c["at_ms"].as_u64()?, bytes: unhex(c["hex"].as_str()?), class: "replayed" });
+                }
+                pair[i] = st;
+            }
+            tasks.push(pair);
+        }
+        Some(Script { tasks, tokio_seed: v["tokio_seed"].as_u64().unwrap_or(0), cancel_ms: v["cancel_ms"].as_u64() })
+    }
+}
+
+const TICK: u64 = 500;
+
+fn gen_stream(rng: &mut Rng, tag: &str, max_chunks: usize, heavy: bool) -> Stream {
+    let n = rng.below(max_chunks + 1);
+    let mut t: u64 = 0;
+    let mut chunks = vec![];
+    let mut line_no = 0;
+    let mut open_line = false; // a line is pending (no newline yet)
+    for _ in 0..n {
+        // arrival time: mixture centred on the tick lattice so that ties and straddles are common
+        t = match rng.below(8) {
+            0 => t,
+            1 => t + 1,
+            2 => t + rng.below(40) as u64,
+            _ => {
+                let k = (t / TICK) + 1 + if rng.chance(1, 5) { 1 } else { 0 };
+                let base = k * TICK;
+                let off: i64 = match rng.below(6) {
+                    0 => -1,
+                    1 | 2 => 0,
+                    3 => 1,
+                    4 => 250,
+                    _ => -250,
+                };
+                ((base as i64 + off).max(t as i64)) as u64
+            }
+        };
+        let (bytes, class): (Vec<u8>, &'static str) = match rng.below(if heavy { 16 } else { 13 }) {
+            0..=3 => {
+                line_no += 1;
+                open_line = false;
+                (format!("{}:{} complete line\n", tag, line_no).into_bytes(), "line")
+            }
+            4 | 5 => {
+                line_no += 1;
+                open_line = true;
+                (format!("{}:{} part", tag, line_no).into_bytes(), "partial")
+            }
+            6 => {
+                open_line = false;
+                (b" rest\n".to_vec(), "rest")
+            }
+            7 => {
+                line_no += 2;
+                open_line = false;
+                (format!("{}:{} a\n{}:{} b\n", tag, line_no - 1, tag, line_no).into_bytes(), "two_lines")
+            }
+            8 => {
+                open_line = false;
+                (b"\n".to_vec(), "newline")
+            }
+            9 => {
+                open_line = false;
+                (vec![0u8, b'\r', b'\n', 0xff, 0xfe, 0xc3, 0x28, b'\n'], "binary")
+            }
+            10 => {
+                open_line = true;
+                (format!("{}:x", tag).into_bytes(), "tiny_partial")
+            }
+            11 => {
+                open_line = false;
+                (b"\r\n".to_vec(), "crlf")
+            }
+            12 => {
+                line_no += 1;
+                open_line = true;
+                (format!("{}:{} no newline at all", tag, line_no).into_bytes(), "partial")
+            }
+            13 => {
+                // a line longer than the BufReader (8 KiB) and than a pipe buffer
+                line_no += 1;
+                open_line = false;
+                let mut v = format!("{}:{} ", tag, line_no).into_bytes();
+                v.extend(std::iter::repeat(b'Z').take(100 * 1024));
+                v.push(b'\n');
+                (v, "huge_line")
+            }
+            14 => {
+                open_line = false;
+                let mut v = vec![];
+                for i in 0..2000 {
+                    v.push(b'a' + (i % 26) as u8);
+                    v.push(b'\n');
+                }
+                (v, "many_tiny_lines")
+            }
+            _ => {
+                open_line = true;
+                let mut v = format!("{}:big-partial ", tag).into_bytes();
+                v.extend(std::iter::repeat(b'P').take(9000));
+                (v, "partial_over_bufreader")
+            }
+        };
+        chunks.push(Chunk { at_ms: t, bytes, class });
+    }
+    let _ = open_line;
+    // EOF at, just before/after a tick, or right after the last chunk
+    let eof_ms = match rng.below(6) {
+        0 => t,
+        1 => t + 1,
+        2 => ((t / TICK) + 1) * TICK,
+        3 => ((t / TICK) + 1) * TICK - 1,
+        4 => ((t / TICK) + 1) * TICK + 1,
+        _ => t + rng.below(1200) as u64,
+    };
+    Stream { chunks, eof_ms }
+}
+
+fn gen_script(seed: u64, idx: u64, cancel: bool) -> Script {
+    let mut rng = Rng::new(mix(&[seed, 0xC08, idx]));
+    let wide = rng.chance(1, 6);
+    let nt = 1 + rng.below(if wide { 8 } else { 3 });
+    let heavy = rng.chance(1, 12);
+    let max_chunks = if rng.chance(1, 10) { 32 } else { 8 };
+    let mut tasks = vec![];
+    for t in 0..nt {
+        let so = gen_stream(&mut rng, &format!("T{}o", t), max_chunks, heavy);
+        let se = gen_stream(&mut rng, &format!("T{}e", t), max_chunks, heavy);
+        tasks.push([so, se]);
+    }
+    let cancel_ms = if cancel { Some(rng.below(2500) as u64) } else { None };
+    Script { tasks, tokio_seed: rng.next(), cancel_ms }
+}
+
+// ---- scripted reader
+struct ScriptedReader {
+    start: tokio::time::Instant,
+    chunks: VecDeque<(u64, Vec<u8>, usize)>, // (at_ms, bytes, consumed)
+    eof_ms: u64,
+    sleep: Option<Pin<Box<tokio::time::Sleep>>>,
+}
+impl ScriptedReader {
+    fn new(start: tokio::time::Instant, s: &Stream) -> Self {
+        ScriptedReader { start, chunks: s.chunks.iter().map(|c| (c.at_ms, c.bytes.clone(), 0)).collect(), eof_ms: s.eof_ms, sleep: None }
+    }
+}
+impl AsyncRead for ScriptedReader {
+    fn poll_read(mut self: Pin<&mut Self>, cx: &mut Context<'_>, buf: &mut ReadBuf<'_>) -> Poll<std::io::Result<()>> {
+        loop {
+            let now_ms = tokio::time::Instant::now().duration_since(self.start).as_millis() as u64;
+            let next_at = match self.chunks.front() {
+                Some((at, _, _)) => *at,
+                None => self.eof_ms,
+            };
+            if next_at <= now_ms {
+                match self.chunks.front_mut() {
+                    Some((_, bytes, used)) => {
+                        if bytes.len() == *used {
+                            self.chunks.pop_front();
+                            continue;
+                        }
+                        let n = (bytes.len() - *used).min(buf.remaining());
+                        buf.put_slice(&bytes[*used..*used + n]);
+                        *used += n;
+                        if *used == bytes.len() {
+                            self.chunks.pop_front();
+                        }
+                        return Poll::Ready(Ok(()));
+                    }
+                    None => return Poll::Ready(Ok(())), // EOF
+                }
+            }
+            let deadline = self.start + Duration::from_millis(next_at);
+            let mut sl = Box::pin(tokio::time::sleep_until(deadline));
+            match sl.as_mut().poll(cx) {
+                Poll::Ready(_) => continue,
+                Poll::Pending => {
+                    self.sleep = Some(sl);
+                    return Poll::Pending;
+                }
+            }
+        }
+    }
+}
+use std::future::Future;
+
+// ---- one execution
+#[derive(Debug, Clone)]
+struct Failure {
+    check: String,
+    class: String,
+    msg: String,
+}
+struct RunOut {
+    failure: Option<Failure>,
+    probes: BTreeMap<String, u64>,
+    virtual_ms: u64,
+}
+
+fn expected(s: &Stream) -> Vec<u8> {
+    let mut v = vec![];
+    for c in &s.chunks {
+        v.extend_from_slice(&c.bytes);
+    }
+    v
+}
+fn show(b: &[u8]) -> String {
+    let mut s = String::new();
+    for &c in b.iter().take(100) {
+        match c {
+            b'\n' => s.push_str("\\n"),
+            0x20..=0x7e => s.push(c as char),
+            _ => s.push_str(&format!("\\x{:02x}", c)),
+        }
+    }
+    if b.len() > 100 {
+        s.push_str(&format!("...({} bytes)", b.len()));
+    }
+    s
+}
+
+fn run_script(sc: &Script, dir: &PathBuf) -> RunOut {
+    let _ = std::fs::remove_dir_all(dir);
+    std::fs::create_dir_all(dir).unwrap();
+    let rt = tokio::runtime::Builder::new_current_thread().enable_time().start_paused(true).rng_seed(tokio::runtime::RngSeed::from_bytes(&sc.tokio_seed.to_le_bytes())).build().unwrap();
+    let _ = monorail::verif::take_probes();
+    let paths: Vec<(PathBuf, PathBuf)> = (0..sc.tasks.len()).map(|i| (dir.join(format!("t{}.stdout.zst", i)), dir.join(format!("t{}.stderr.zst", i)))).collect();
+    let (res, virtual_ms) = rt.block_on(async {
+        let start = tokio::time::Instant::now();
+        let tasks: Vec<monorail::verif::CaptureTask<ScriptedReader>> = sc
+            .tasks
+            .iter()
+            .enumerate()
+            .map(|(i, t)| monorail::verif::CaptureTask { stdout: ScriptedReader::new(start, &t[0]), stderr: ScriptedReader::new(start, &t[1]), stdout_path: paths[i].0.clone(), stderr_path: paths[i].1.clone() })
+            .collect();
+        let r = monorail::verif::capture(tasks, sc.cancel_ms.map(Duration::from_millis)).await;
+        (r, tokio::time::Instant::now().duration_since(start).as_millis() as u64)
+    });
+    drop(rt);
+    let probes: BTreeMap<String, u64> = monorail::verif::take_probes().into_iter().map(|(k, v)| (k.to_string(), v)).collect();
+    let mut failure = None;
+    match res {
+        Err(e) => failure = Some(Failure { check: "capture_ok".into(), class: "capture_error".into(), msg: format!("capture failed: {}", e) }),
+        Ok(per_task) => {
+            for (i, t) in sc.tasks.iter().enumerate() {
+                if failure.is_some() {
+                    break;
+                }
+                let cancelled = sc.cancel_ms.is_some();
+                if let Err(e) = &per_task[i] {
+                    if !cancelled {
+                        failure = Some(Failure { check: "capture_ok".into(), class: "task_error".into(), msg: format!("task {} reader failed without cancellation: {}", i, e) });
+                        break;
+                    }
+                }
+                for (k, name) in [(0usize, "stdout"), (1usize, "stderr")] {
+                    let p = if k == 0 { &paths[i].0 } else { &paths[i].1 };
+                    let want = expected(&t[k]);
+                    let got = match std::fs::read(p) {
+                        Ok(b) => match zstd::stream::decode_all(&b[..]) {
+                            Ok(d) => d,
+                            Err(e) => {
+                                failure = Some(Failure { check: "stored_bytes".into(), class: "undecodable".into(), msg: format!("task {} {}: stored log does not decode: {} ({} bytes on disk)", i, name, e, b.len()) });
+                                break;
+                            }
+                        },
+                        Err(e) => {
+                            failure = Some(Failure { check: "stored_bytes".into(), class: "missing_file".into(), msg: format!("task {} {}: log file missing: {}", i, name, e) });
+                            break;
+                        }
+                    };
+                    // with cancellation: streams that reached EOF before the cancel must be exact, others a prefix
+                    let must_be_exact = match sc.cancel_ms {
+                        None => true,
+                        Some(c) => t[k].eof_ms < c && t[1 - k].eof_ms < c,
+                    };
+                    if got == want {
+                        continue;
+                    }
+                    if !must_be_exact && want.starts_with(&got) {
+                        continue;
+                    }
+                    // classify
+                    let other_tags: Vec<String> = (0..sc.tasks.len()).flat_map(|j| vec![format!("T{}o:", j), format!("T{}e:", j)]).filter(|tag| *tag != format!("T{}{}:", i, if k == 0 { "o" } else { "e" })).collect();
+                    let gs = String::from_utf8_lossy(&got).into_owned();
+                    let foreign = other_tags.iter().any(|tag| gs.contains(tag.as_str()));
+                    let (check, class) = if foreign {
+                        ("foreign_bytes", "other_task_bytes")
+                    } else if got.len() < want.len() {
+                        ("stored_bytes", "bytes_lost")
+                    } else if got.len() > want.len() {
+                        ("stored_bytes", "bytes_duplicated")
+                    } else {
+                        ("stored_bytes", "bytes_differ")
+                    };
+                    let pos = got.iter().zip(want.iter()).position(|(a, b)| a != b).unwrap_or(got.len().min(want.len()));
+                    failure = Some(Failure { check: check.into(), class: class.into(), msg: format!("task {} {}: stored {} bytes, process wrote {} bytes; first difference at offset {}: stored {:?} vs written {:?}", i, name, got.len(), want.len(), pos, show(&got[pos.min(got.len())..]), show(&want[pos.min(want.len())..])) });
+                    break;
+                }
+            }
+        }
+    }
+    RunOut { failure, probes, virtual_ms }
+}
+
+fn features(sc: &Script) -> (BTreeMap<String, u64>, u64, bool) {
+    // probes computed from the script itself + a shape signature
+    let mut p: BTreeMap<String, u64> = BTreeMap::new();
+    let mut sig: Vec<u8> = vec![];
+    let mut straddle = false;
+    for t in &sc.tasks {
+        for s in t.iter() {
+            let mut open = false;
+            let mut last_t = 0u64;
+            for c in &s.chunks {
+                if c.at_ms > 0 && c.at_ms % TICK == 0 {
+                    *p.entry("tie_tick_vs_data".into()).or_insert(0) += 1;
+                }
+                if open && c.at_ms / TICK > last_t / TICK {
+                    straddle = true;
+                    *p.entry("pause_straddles_tick_mid_line".into()).or_insert(0) += 1;
+                }
+                if c.bytes.len() > 8192 {
+                    *p.entry("line_over_bufreader".into()).or_insert(0) += 1;
+                }
+                open = !c.bytes.ends_with(b"\n");
+                last_t = c.at_ms;
+                let phase = match c.at_ms % TICK {
+                    0 => 0u8,
+                    1 => 1,
+                    499 => 2,
+                    250 => 3,
+                    _ => 4,
+                };
+                sig.extend_from_slice(c.class.as_bytes());
+                sig.push(phase);
+                sig.push((c.at_ms / TICK).min(255) as u8);
+            }
+            if open {
+                *p.entry("eof_without_newline".into()).or_insert(0) += 1;
+                if s.eof_ms / TICK > last_t / TICK {
+                    straddle = true;
+                }
+            }
+            if s.chunks.is_empty() {
+                *p.entry("empty_stream".into()).or_insert(0) += 1;
+            }
+            if s.eof_ms % TICK == 0 && s.eof_ms > 0 {
+                *p.entry("eof_on_tick".into()).or_insert(0) += 1;
+            }
+            sig.push(0xfe);
+        }
+        sig.push(0xff);
+    }
+    if sc.cancel_ms.is_some() {
+        sig.push(0xcc);
+    }
+    (p, fnv(&sig), straddle)
+}
+
+fn shrink(sc: &Script, dir: &PathBuf, key: &str) -> Script {
+    let mut cur = sc.clone();
+    let mut budget = 300;
+    let fails = |s: &Script, budget: &mut i32| -> bool {
+        *budget -= 1;
+        run_script(s, dir).failure.map(|f| format!("{}/{}", f.check, f.class) == key).unwrap_or(false)
+    };
+    loop {
+        let mut progress = false;
+        // drop tasks
+        let mut i = 0;
+        while i < cur.tasks.len() && cur.tasks.len() > 1 && budget > 0 {
+            let mut c = cur.clone();
+            c.tasks.remove(i);
+            if fails(&c, &mut budget) {
+                cur = c;
+                progress = true;
+            } else {
+                i += 1;
+            }
+        }
+        // drop chunks
+        for ti in 0..cur.tasks.len() {
+            for k in 0..2 {
+                let mut ci = 0;
+                while ci < cur.tasks[ti][k].chunks.len() && budget > 0 {
+                    let mut c = cur.clone();
+                    c.tasks[ti][k].chunks.remove(ci);
+                    if fails(&c, &mut budget) {
+                        cur = c;
+                        progress = true;
+                    } else {
+                        ci += 1;
+                    }
+                }
+            }
+        }
+        // shorten bytes
+        for ti in 0..cur.tasks.len() {
+            for k in 0..2 {
+                for ci in 0..cur.tasks[ti][k].chunks.len() {
+                    if budget <= 0 {
+                        break;
+                    }
+                    let b = cur.tasks[ti][k].chunks[ci].bytes.clone();
+                    if b.len() > 4 {
+                        let mut c = cur.clone();
+                        let nl = b.ends_with(b"\n");
+                        let mut nb = b[..2].to_vec();
+                        if nl {
+                            nb.push(b'\n');
+                        }
+                        c.tasks[ti][k].chunks[ci].bytes = nb;
+                        if fails(&c, &mut budget) {
+                            cur = c;
+                            progress = true;
+                        }
+                    }
+                }
+            }
+        }
+        if !progress || budget <= 0 {
+            break;
+        }
+    }
+    cur
+}
+
+fn main() {
+    let args: Vec<String> = std::env::args().collect();
+    let scratch = PathBuf::from(format!("/dev/shm/mv-vclock-{}", std::process::id()));
+    match args.get(1).map(|s| s.as_str()) {
+        Some("batch") => {
+            let seed: u64 = args[2].parse().unwrap();
+            let start: u64 = args[3].parse().unwrap();
+            let count: u64 = args[4].parse().unwrap();
+            let mut probes: BTreeMap<String, u64> = BTreeMap::new();
+            let mut sigs: HashSet<u64> = HashSet::new();
+            let mut failures = vec![];
+            let mut virtual_ms = 0u64;
+            let mut cancel_runs = 0u64;
+            let t0 = std::time::Instant::now();
+            for i in start..start + count {
+                // one run in eight uses the (relaxed) cancellation configuration, kept separate from the strict one
+                let cancel = i % 8 == 7;
+                let sc = gen_script(seed, i, cancel);
+                let (feat, sig, straddle) = features(&sc);
+                let o = run_script(&sc, &scratch);
+                virtual_ms += o.virtual_ms;
+                if cancel {
+                    cancel_runs += 1;
+                }
+                for (k, v) in feat.iter().chain(o.probes.iter()) {
+                    *probes.entry(k.clone()).or_insert(0) += v;
+                }
+                let nontrivial = straddle || feat.contains_key("tie_tick_vs_data") || o.probes.contains_key("tick_with_partial_line");
+                if nontrivial {
+                    sigs.insert(sig);
+                }
+                if let Some(f) = o.failure {
+                    if failures.len() < 3 {
+                        let key = format!("{}/{}", f.check, f.class);
+                        let min = shrink(&sc, &scratch, &key);
+                        let mo = run_script(&min, &scratch);
+                        let (fin, ff) = match mo.failure {
+                            Some(x) if format!("{}/{}", x.check, x.class) == key => (min, x),
+                            _ => (sc.clone(), f),
+                        };
+                        failures.push(json!({"index": i, "check": ff.check, "class": ff.class, "msg": ff.msg, "script": fin.to_json(), "cancel": cancel}));
+                    }
+                }
+            }
+            let _ = std::fs::remove_dir_all(&scratch);
+            let mut sig_list: Vec<u64> = sigs.into_iter().collect();
+            sig_list.sort();
+            println!("{}", json!({"evaluated": count, "virtual_ms": virtual_ms, "cancel_runs": cancel_runs, "probes": probes, "sigs": sig_list, "failures": failures, "wall_ms": t0.elapsed().as_millis() as u64}));
+        }
+        Some("one") => {
+            let v: Value = serde_json::from_str(&std::fs::read_to_string(&args[2]).unwrap()).unwrap();
+            let sc = Script::from_json(&v).expect("bad script");
+            let o = run_script(&sc, &scratch);
+            let _ = std::fs::remove_dir_all(&scratch);
+            println!("{}", json!({"failure": o.failure.map(|f| json!({"check": f.check, "class": f.class, "msg": f.msg})), "probes": o.probes, "virtual_ms": o.virtual_ms}));
+        }
+        Some("trace") => {
+            // determinism self-test: print a digest of the stored files for a range of scripts
+            let seed: u64 = args[2].parse().unwrap();
+            let start: u64 = args[3].parse().unwrap();
+            let count: u64 = args[4].parse().unwrap();
+            for i in start..start + count {
+                let sc = gen_script(seed, i, i % 8 == 7);
+                let o = run_script(&sc, &scratch);
+                let mut digest = 0u64;
+                for t in 0..sc.tasks.len() {
+                    for n in ["stdout", "stderr"] {
+                        let b = std::fs::read(scratch.join(format!("t{}.{}.zst", t, n))).unwrap_or_default();
+                        let d = zstd::stream::decode_all(&b[..]).unwrap_or_default();
+                        digest = mix(&[digest, fnv(&d)]);
+                    }
+                }
+                println!("{} {} {:?} {:?} {}", i, digest, o.probes, o.failure.map(|f| f.class), o.virtual_ms);
+            }
+            let _ = std::fs::remove_dir_all(&scratch);
+        }
+        _ => {
+            eprintln!("usage: vclock batch <seed> <start> <count> | one <script.json> | trace <seed> <start> <count>");
+            std::process::exit(2);
+        }
+    }
+}
